@@ -25,7 +25,9 @@ EXPLANATION = (
     "takes; (R2) the stored shell and the shell returned on request are the same computation "
     "(value-graph equality of points and weights incl. the rotation seed); (R3) the centre is added "
     "once, in the points getter; (R4) rotations are seeded from the rotate argument; (R5) preset "
-    "sizes are passed as sizes.  NOT decided: numerical values of points/weights, the "
+    "sizes are passed as sizes; (R6) the shell index table accumulates the appended shell sizes; (R7) "
+    "binary searches only run over data whose order is established in the same function.  NOT decided: "
+    "numerical values of points/weights, the "
     "factorisation of integrals.")
 RULE = ("one instance per (preset file, element) x obligations; 2 sibling graphs; centre/seed/sizes sites")
 
